@@ -11,13 +11,25 @@
 //!   table is also compared with the model's `vectors`/`retained` (the definitions of theorem `uniform`).
 //! * stream C (statistics, real generator, failing-input search only): per-position retention frequency over
 //!   many cycles against cap/n with a Hoeffding bound (false alarm < 1e-11 per position).
-//! * stream D (known finding K-C16-straddle): two deterministic two-thread schedules through the yield points.
+//! * stream D (parked-push grid): a push that selected its side, then complete drains, then the push finishes.
+//! * stream E (concurrency, `conc_*`): pusher and consumer threads under a token-passing scheduler over the yield
+//!   points of `push` and of the consume closure; the executed schedule is replayed on the Lean step machine
+//!   (`reservoir crun …`, Model/ReservoirConc).  Oracles independent of the model, computed from the trace:
+//!   no panic; len/rate consistent; Σ pushed-counts reported = pushes − pushes whose claim fell between a drain's
+//!   `count.load` and its reset (exact); no stale/duplicate value unless a push was between claim and store when a
+//!   drain of its side loaded the count (K-C16-straddle); exact conservation when nothing overlaps.
+//!   Corpus schedules (the two K-C16-straddle witnesses, pushes resumed after a complete drain at/over capacity,
+//!   late claims followed by further cycles), seeded random schedules, exhaustive enumeration of small configurations.
+//! * stream F (probes without the scheduler): the `swap` mutex really excludes a second consumer; a panicking
+//!   closure; free-running stress with several pushers; independence of the per-thread generators; real generator
+//!   at stream lengths beyond 1024 and 4096.
+//! * stream G: the DogStatsD sampled-histogram path (`AtomicHistogram::Sampled`, `State::flush`) end to end.
 use crate::util::*;
 use metrics_util::storage::reservoir::{verif, AtomicSamplingReservoir};
 use std::cell::{Cell, RefCell};
 use std::panic::{catch_unwind, AssertUnwindSafe};
-use std::sync::atomic::{AtomicBool, Ordering::SeqCst};
-use std::sync::Arc;
+use std::sync::atomic::{AtomicBool, AtomicUsize, Ordering::SeqCst};
+use std::sync::{Arc, Condvar, Mutex};
 
 const DEFAULT_CAP: usize = 1024; // metrics-exporter-dogstatsd/src/builder.rs: DEFAULT_HISTOGRAM_RESERVOIR_SIZE
 
@@ -272,6 +284,34 @@ fn session(r: &mut Rng, out: &mut Out, cap: usize, wild: bool) {
             }
         }
     }
+    // a closure that leaks the Drain (mem::forget): Drain::drop never runs, the count of the retired side is not
+    // reset.  Outside the property's assumptions; compared with the model only (Lean: forget_breaks_next_drain).
+    if r.chance(1, 5) {
+        out.count("sessions ending with a leaked Drain (mem::forget)");
+        let n = r.range(1, cap + 2);
+        for pos in 0..n {
+            let v = (9_000_000 + pos) as f64;
+            let raw = pick_raw(r, pos);
+            let p = push_scripted(&res, v, raw);
+            out.op(&format!("reservoir push {:016x} {}", v.to_bits(), raw), &push_answer(&p));
+        }
+        let mut d = Drained { len: 0, rate: 0.0, rates_later: vec![], len_after: 0, vals: vec![] };
+        res.consume(|mut drain| {
+            d.len = drain.len();
+            d.rate = drain.sample_rate();
+            while let Some(v) = drain.next() {
+                d.vals.push(v.to_bits());
+            }
+            std::mem::forget(drain);
+        });
+        out.op("reservoir consumef ~", &consume_answer(&d));
+        for _ in 0..3 {
+            let e = res.is_empty();
+            out.op("reservoir empty", if e { "1" } else { "0" });
+            let d2 = consume(&res, None);
+            out.op("reservoir consume ~", &consume_answer(&d2));
+        }
+    }
     if sampled_cycles > 0 {
         out.nontrivial();
     }
@@ -426,12 +466,13 @@ fn stat_case(out: &mut Out, cap: usize, n: usize, trials: usize) {
 }
 
 // ---------------------------------------------------------------------------------------------
-// stream D: a push overlapping a drain (K-C16-straddle)
+// stream D: a parked push and complete drains
 
 static PARKED: AtomicBool = AtomicBool::new(false);
 static RESUME: AtomicBool = AtomicBool::new(false);
 
 fn point_hook(id: &'static str) {
+    mpoint(id);
     if PARK_AT.with(|p| p.get()) == Some(id) {
         PARK_AT.with(|p| p.set(None));
         PARKED.store(true, SeqCst);
@@ -462,78 +503,7 @@ fn start_parked_push(res: &Arc<AtomicSamplingReservoir>, v: f64, point: &'static
     h
 }
 
-fn straddle(out: &mut Out) {
-    *verif::POINT_HOOK.write().unwrap() = Some(point_hook);
-    // schedule 1: the push selected the primary reservoir before the swap and claims its slot after the drain
-    // has read `count` but before Drain::drop resets it.
-    out.case("straddle schedule 1 (push parked after loading use_primary)");
-    out.count("straddle schedules");
-    {
-        let res = Arc::new(AtomicSamplingReservoir::new(4));
-        res.push(1.0);
-        res.push(2.0);
-        let h = start_parked_push(&res, 3.0, "reservoir.push.selected");
-        let mut h = Some(h);
-        let mut drains: Vec<(Vec<f64>, f64)> = vec![];
-        let mut first = (vec![], 0.0);
-        res.consume(|drain| {
-            // Drain exists: unsampled_len = 2 was read. Now let T finish its push into the same reservoir.
-            RESUME.store(true, SeqCst);
-            h.take().unwrap().join().unwrap();
-            first.1 = drain.sample_rate();
-            first.0 = drain.collect();
-        });
-        drains.push(first);
-        for _ in 0..3 {
-            let mut d = (vec![], 0.0);
-            res.consume(|drain| {
-                d.1 = drain.sample_rate();
-                d.0 = drain.collect();
-            });
-            drains.push(d);
-        }
-        let seen = drains.iter().any(|d| d.0.contains(&3.0));
-        out.count(if seen { "straddle 1: value delivered" } else { "straddle 1: value lost" });
-        if !seen {
-            out.oracle_fail(
-                "K-C16-straddle: a completed push is neither yielded nor counted by any drain",
-                &format!(
-                    "cap=4; push 1.0; push 2.0; T: push(3.0) parked at reservoir.push.selected (use_primary=true loaded); main: consume -> swap, drain(): count=2 read; T resumes: fetch_add -> idx 2, store; main: iterate + Drain::drop (count:=0); 3 more consumes. drains (values, rate) = {:?}; 3.0 never appears and no rate accounts for it",
-                    drains
-                ),
-            );
-        }
-    }
-    // schedule 2: the push has claimed its index (count incremented) but not stored yet when the drain reads the slot
-    out.case("straddle schedule 2 (push parked between fetch_add and store)");
-    out.count("straddle schedules");
-    {
-        let res = Arc::new(AtomicSamplingReservoir::new(4));
-        let h = start_parked_push(&res, 7.0, "reservoir.push.claimed");
-        let mut first = (vec![], 0.0);
-        res.consume(|drain| {
-            first.1 = drain.sample_rate();
-            first.0 = drain.collect();
-        });
-        RESUME.store(true, SeqCst);
-        h.join().unwrap();
-        let mut later: Vec<Vec<f64>> = vec![];
-        for _ in 0..3 {
-            res.consume(|drain| later.push(drain.collect()));
-        }
-        let invented = first.0.iter().any(|v| *v != 7.0);
-        let lost = !first.0.contains(&7.0) && !later.iter().any(|d| d.contains(&7.0));
-        out.count(if invented { "straddle 2: never-pushed value yielded" } else { "straddle 2: clean" });
-        if invented || lost {
-            out.oracle_fail(
-                "K-C16-straddle: a drain overlapping a push yields a value that was never pushed and the pushed value is lost",
-                &format!(
-                    "cap=4 fresh; T: push(7.0) parked at reservoir.push.claimed (count=1, slot 0 not stored); main: consume -> yields {:?} rate {:?}; T resumes (stores 7.0, count already reset to 0); 3 more consumes yield {:?}",
-                    first.0, first.1, later
-                ),
-            );
-        }
-    }
+fn parked_grid(out: &mut Out) {
     // grid: a push that has selected its reservoir, then `j` COMPLETE consumes on another thread, then the push
     // finishes.  Nothing overlaps a drain here, so every value (the straggler included) must come out of exactly
     // one drain, with rate 1.0 (never more than the capacity is pushed), and drains in between start from empty.
@@ -588,7 +558,892 @@ fn straddle(out: &mut Out) {
             }
         }
     }
-    *verif::POINT_HOOK.write().unwrap() = None;
+}
+
+// ---------------------------------------------------------------------------------------------
+// stream E: pushers and consumers under a token-passing scheduler, replayed on Model/ReservoirConc
+
+#[derive(Clone, Copy, PartialEq, Debug)]
+enum St {
+    Running,
+    Parked(&'static str),
+    Finished(bool),
+}
+
+struct CtlSt {
+    status: Vec<St>,
+    turn: Option<usize>,
+}
+
+struct Ctl {
+    st: Mutex<CtlSt>,
+    cv: Condvar,
+}
+
+thread_local! {
+    static ME: RefCell<Option<(Arc<Ctl>, usize)>> = RefCell::new(None);
+}
+
+/// yield point of a managed thread (threads that are not managed pass through)
+fn mpoint(id: &'static str) {
+    let me = ME.with(|m| m.borrow().clone());
+    if let Some((c, t)) = me {
+        c.park(t, id);
+    }
+}
+
+fn sched_fatal(why: &str) -> ! {
+    eprintln!("C16 harness: scheduler: {}", why);
+    std::process::exit(3);
+}
+
+impl Ctl {
+    fn park(&self, t: usize, id: &'static str) {
+        let mut st = self.st.lock().unwrap();
+        st.status[t] = St::Parked(id);
+        self.cv.notify_all();
+        while st.turn != Some(t) {
+            st = self.cv.wait(st).unwrap();
+        }
+        st.turn = None;
+        st.status[t] = St::Running;
+    }
+    /// lets thread `t` run up to its next point (or its end); returns where it stopped
+    fn grant(&self, t: usize) -> St {
+        let mut st = self.st.lock().unwrap();
+        assert!(matches!(st.status[t], St::Parked(_)));
+        st.status[t] = St::Running;
+        st.turn = Some(t);
+        self.cv.notify_all();
+        let t0 = std::time::Instant::now();
+        while st.status[t] == St::Running || st.turn.is_some() {
+            let (g, _) = self.cv.wait_timeout(st, std::time::Duration::from_millis(500)).unwrap();
+            st = g;
+            if t0.elapsed().as_secs() > 30 {
+                sched_fatal("a granted thread did not reach its next yield point within 30 s");
+            }
+        }
+        st.status[t]
+    }
+    fn wait_settled(&self) -> Vec<St> {
+        let mut st = self.st.lock().unwrap();
+        let t0 = std::time::Instant::now();
+        while st.status.iter().any(|x| *x == St::Running) {
+            let (g, _) = self.cv.wait_timeout(st, std::time::Duration::from_millis(500)).unwrap();
+            st = g;
+            if t0.elapsed().as_secs() > 30 {
+                sched_fatal("threads did not reach their first yield point within 30 s");
+            }
+        }
+        st.status.clone()
+    }
+}
+
+#[derive(Clone, Copy, Debug, PartialEq)]
+enum TOp {
+    Push(u64, usize),
+    Consume,
+    ConsumeForget,
+}
+
+fn progs_tok(progs: &[Vec<TOp>]) -> String {
+    progs
+        .iter()
+        .map(|p| {
+            list(p.iter().map(|o| match o {
+                TOp::Push(b, raw) => format!("p{:016x}:{}", b, raw),
+                TOp::Consume => "c".to_string(),
+                TOp::ConsumeForget => "f".to_string(),
+            }))
+        })
+        .collect::<Vec<_>>()
+        .join("/")
+}
+
+#[derive(Clone)]
+struct DrainSeen {
+    tid: usize,
+    len: usize,
+    rate: f64,
+    vals: Vec<u64>,
+}
+
+impl std::fmt::Debug for DrainSeen {
+    fn fmt(&self, f: &mut std::fmt::Formatter<'_>) -> std::fmt::Result {
+        write!(f, "(thread {} len {} rate {:?} values {:?})", self.tid, self.len, self.rate, self.vals.iter().map(|b| f64::from_bits(*b)).collect::<Vec<f64>>())
+    }
+}
+
+fn drain_tok(d: &DrainSeen) -> String {
+    let vals = if d.vals.is_empty() { "-".to_string() } else { d.vals.iter().map(|b| format!("{:016x}", b)).collect::<Vec<_>>().join("+") };
+    format!("{}:{}:{}", d.len, f64bits(d.rate), vals)
+}
+
+#[derive(Clone, Debug)]
+struct PushRec {
+    tid: usize,
+    bits: u64,
+    side: bool,
+    t_claim: Option<usize>,
+    t_store: Option<usize>,
+}
+
+#[derive(Clone, Debug)]
+struct ConsRec {
+    side: bool,
+    t_load: usize,
+    t_drop: Option<usize>,
+}
+
+struct ConcRun {
+    /// granted thread ids
+    taken: Vec<usize>,
+    /// runnable set at each grant
+    choices: Vec<Vec<usize>>,
+    labels: String,
+    asked: Vec<Vec<Option<usize>>>,
+    drains: Vec<DrainSeen>,
+    flush: Vec<DrainSeen>,
+    panicked: Vec<usize>,
+    pushes: Vec<PushRec>,
+    conses: Vec<ConsRec>,
+    has_forget: bool,
+}
+
+fn consume_managed(res: &AtomicSamplingReservoir, tid: usize, forget: bool, sink: &Mutex<Vec<DrainSeen>>) {
+    res.consume(|mut drain| {
+        let len = drain.len();
+        let rate = drain.sample_rate();
+        let mut vals = vec![];
+        loop {
+            mpoint("c16.drain.step");
+            match drain.next() {
+                Some(v) => vals.push(v.to_bits()),
+                None => break,
+            }
+        }
+        sink.lock().unwrap().push(DrainSeen { tid, len, rate, vals });
+        if forget {
+            std::mem::forget(drain);
+        }
+    });
+}
+
+/// runs `progs` on a fresh reservoir under `schedule` (ids that cannot move are skipped; afterwards lowest id
+/// first), then two sequential drains
+fn run_conc(cap: usize, progs: &[Vec<TOp>], schedule: &[usize]) -> ConcRun {
+    let n = progs.len();
+    let res = Arc::new(AtomicSamplingReservoir::new(cap));
+    let ctl = Arc::new(Ctl { st: Mutex::new(CtlSt { status: vec![St::Running; n], turn: None }), cv: Condvar::new() });
+    let sink: Arc<Mutex<Vec<DrainSeen>>> = Arc::new(Mutex::new(vec![]));
+    let mut handles = vec![];
+    for (t, prog) in progs.iter().enumerate() {
+        let (res, ctl, sink, prog) = (res.clone(), ctl.clone(), sink.clone(), prog.clone());
+        handles.push(std::thread::spawn(move || {
+            ME.with(|m| *m.borrow_mut() = Some((ctl.clone(), t)));
+            verif::RNG_OVERRIDE.with(|o| o.set(Some(scripted)));
+            QUIET_PANIC.with(|q| q.set(true));
+            let mut asked: Vec<Option<usize>> = vec![];
+            let r = catch_unwind(AssertUnwindSafe(|| {
+                for op in &prog {
+                    mpoint("c16.op");
+                    match *op {
+                        TOp::Push(bits, raw) => {
+                            RAW.with(|r| r.set(raw));
+                            ASKED.with(|a| a.borrow_mut().clear());
+                            res.push(f64::from_bits(bits));
+                            asked.push(ASKED.with(|a| a.borrow().first().copied()));
+                        }
+                        TOp::Consume => consume_managed(&res, t, false, &sink),
+                        TOp::ConsumeForget => consume_managed(&res, t, true, &sink),
+                    }
+                }
+            }));
+            ME.with(|m| *m.borrow_mut() = None);
+            let mut st = ctl.st.lock().unwrap();
+            st.status[t] = St::Finished(r.is_err());
+            ctl.cv.notify_all();
+            drop(st);
+            asked
+        }));
+    }
+    let mut status = ctl.wait_settled();
+    let mut opi = vec![0usize; n];
+    let mut lock: Option<usize> = None;
+    let mut up = true; // shadow of use_primary
+    let mut run = ConcRun {
+        taken: vec![], choices: vec![], labels: String::new(), asked: vec![], drains: vec![], flush: vec![], panicked: vec![],
+        pushes: vec![], conses: vec![], has_forget: progs.iter().any(|p| p.contains(&TOp::ConsumeForget)),
+    };
+    let mut cur_push: Vec<Option<usize>> = vec![None; n];
+    let mut cur_cons: Vec<Option<usize>> = vec![None; n];
+    let mut pos = 0;
+    loop {
+        let runnable: Vec<usize> = (0..n)
+            .filter(|&t| match status[t] {
+                St::Parked("c16.op") => !(lock.is_some() && matches!(progs[t][opi[t]], TOp::Consume | TOp::ConsumeForget)),
+                St::Parked(_) => true,
+                _ => false,
+            })
+            .collect();
+        if runnable.is_empty() {
+            break;
+        }
+        let mut pick = None;
+        while pos < schedule.len() {
+            let c = schedule[pos];
+            pos += 1;
+            if runnable.contains(&c) {
+                pick = Some(c);
+                break;
+            }
+        }
+        let t = pick.unwrap_or(runnable[0]);
+        let now = run.taken.len();
+        let from = status[t];
+        let to = ctl.grant(t);
+        status[t] = to;
+        run.taken.push(t);
+        run.choices.push(runnable);
+        run.labels.push(match to {
+            St::Parked("reservoir.push.selected") => 's',
+            St::Parked("reservoir.push.claimed") => 'c',
+            St::Parked("c16.drain.step") => 'r',
+            St::Parked("c16.op") => 'o',
+            St::Parked(_) => '?',
+            St::Finished(false) => 'f',
+            St::Finished(true) => 'p',
+            St::Running => '!',
+        });
+        // shadow bookkeeping for the trace-based oracles
+        match from {
+            St::Parked("c16.op") => match progs[t][opi[t]] {
+                TOp::Push(bits, _) => {
+                    cur_push[t] = Some(run.pushes.len());
+                    run.pushes.push(PushRec { tid: t, bits, side: up, t_claim: None, t_store: None });
+                }
+                _ => {
+                    cur_cons[t] = Some(run.conses.len());
+                    run.conses.push(ConsRec { side: up, t_load: now, t_drop: None });
+                    up = !up;
+                    lock = Some(t);
+                }
+            },
+            St::Parked("reservoir.push.selected") => run.pushes[cur_push[t].unwrap()].t_claim = Some(now),
+            St::Parked("reservoir.push.claimed") => {
+                run.pushes[cur_push[t].unwrap()].t_store = Some(now);
+                opi[t] += 1;
+            }
+            St::Parked("c16.drain.step") => {
+                if !matches!(to, St::Parked("c16.drain.step")) {
+                    run.conses[cur_cons[t].unwrap()].t_drop = Some(now);
+                    lock = None;
+                    opi[t] += 1;
+                }
+            }
+            _ => {}
+        }
+        if let St::Finished(true) = to {
+            run.panicked.push(t);
+            if lock == Some(t) {
+                lock = None;
+            }
+        }
+    }
+    for h in handles {
+        run.asked.push(h.join().unwrap_or_default());
+    }
+    run.drains = sink.lock().unwrap().clone();
+    // two sequential drains after everything has finished (skipped when the mutex was poisoned by a panic)
+    let fl: Mutex<Vec<DrainSeen>> = Mutex::new(vec![]);
+    QUIET_PANIC.with(|q| q.set(true));
+    let _ = catch_unwind(AssertUnwindSafe(|| {
+        consume_managed(&res, 99, false, &fl);
+        consume_managed(&res, 99, false, &fl);
+    }));
+    QUIET_PANIC.with(|q| q.set(false));
+    run.flush = fl.lock().unwrap().clone();
+    run
+}
+
+fn conc_answer(r: &ConcRun) -> String {
+    let asked = r
+        .asked
+        .iter()
+        .map(|a| list(a.iter().map(|o| o.map(|u| u.to_string()).unwrap_or("~".into()))))
+        .collect::<Vec<_>>()
+        .join("/");
+    let drains = list(r.drains.iter().map(|d| format!("{}:{}", d.tid, drain_tok(d))));
+    let flush = r.flush.iter().map(drain_tok).collect::<Vec<_>>().join(",");
+    format!("trace={} asked={} drains={} flush={}", r.labels, asked, drains, flush)
+}
+
+/// the number of pushes a drain says were made, from `len` and `sample_rate()`; Err = inconsistent
+fn unsampled_of(cap: usize, d: &DrainSeen) -> Result<Option<usize>, String> {
+    if d.len > cap {
+        return Err(format!("len {} exceeds the capacity {}", d.len, cap));
+    }
+    if d.vals.len() != d.len {
+        return Err(format!("{} values yielded, len() was {}", d.vals.len(), d.len));
+    }
+    if d.rate.to_bits() == 1.0f64.to_bits() {
+        return Ok(Some(d.len));
+    }
+    if d.len != cap {
+        return Err(format!("rate {:?} below 1 although only {} of {} slots are yielded", d.rate, d.len, cap));
+    }
+    if cap == 0 {
+        return if d.rate.to_bits() == 0.0f64.to_bits() { Ok(None) } else { Err(format!("capacity 0 with rate {:?}", d.rate)) };
+    }
+    let u = (d.len as f64 / d.rate).round();
+    if !(u.is_finite() && u > d.len as f64 && (d.len as f64 / u).to_bits() == d.rate.to_bits()) {
+        return Err(format!("rate {:?} is not len/pushed for any pushed count > len = {}", d.rate, d.len));
+    }
+    Ok(Some(u as usize))
+}
+
+/// oracles on one concurrent run, from the trace and what the real code returned (no model involved).
+/// `report_known`: also report the known finding when the run shows exactly the loss it describes.
+fn conc_oracles(out: &mut Out, cap: usize, progs: &[Vec<TOp>], r: &ConcRun, report_known: bool) {
+    let ctx = format!("cap={} programs={} executed schedule={}", cap, progs_tok(progs), crate::sched::sched_tok(&r.taken));
+    if !r.panicked.is_empty() {
+        out.count("conc: runs with a panic");
+        out.oracle_fail("push panicked", &format!("{}: thread(s) {:?} panicked (trace {}); drains {:?}", ctx, r.panicked, r.labels, r.drains));
+        return;
+    }
+    if r.has_forget {
+        return;
+    }
+    let all: Vec<&DrainSeen> = r.drains.iter().chain(r.flush.iter()).collect();
+    let mut sum_u = Some(0usize);
+    let mut sampled = false;
+    for d in &all {
+        match unsampled_of(cap, d) {
+            Err(why) => {
+                out.oracle_fail("drain length / sample rate inconsistent", &format!("{}: {} (drain {:?})", ctx, why, d));
+                return;
+            }
+            Ok(None) => sum_u = None,
+            Ok(Some(u)) => {
+                if u > d.len {
+                    sampled = true;
+                }
+                sum_u = sum_u.map(|s| s + u);
+            }
+        }
+    }
+    let end = usize::MAX;
+    // a push whose claim fell between a drain's count.load of its side and that drain's reset
+    let late: Vec<&PushRec> = r
+        .pushes
+        .iter()
+        .filter(|p| r.conses.iter().any(|k| k.side == p.side && p.t_claim.map_or(false, |c| k.t_load < c && c < k.t_drop.unwrap_or(end))))
+        .collect();
+    // a push that had claimed but not stored when a drain of its side loaded the count
+    let inflight_at_load = r.pushes.iter().any(|p| {
+        r.conses.iter().any(|k| k.side == p.side && p.t_claim.map_or(false, |c| c < k.t_load) && p.t_store.map_or(true, |s| s > k.t_load))
+    });
+    // any overlap of a push's claim..store with a drain window of its side
+    let overlap = r.pushes.iter().any(|p| {
+        r.conses.iter().any(|k| k.side == p.side && p.t_claim.map_or(false, |c| c < k.t_drop.unwrap_or(end)) && p.t_store.map_or(true, |s| s > k.t_load))
+    });
+    let n_push = r.pushes.len();
+    if !late.is_empty() {
+        out.count("conc: runs with a push claiming between a drain's count.load and its reset (K-C16-straddle)");
+    }
+    if inflight_at_load {
+        out.count("conc: runs with a push between claim and store at a drain's count.load (K-C16-straddle)");
+    }
+    if !overlap {
+        out.count("conc: runs without any push/drain overlap");
+    }
+    // (1) the counts the drains report: exact
+    if let Some(su) = sum_u {
+        if su + late.len() != n_push {
+            out.oracle_fail(
+                "the drains' pushed-counts do not add up to the pushes made",
+                &format!(
+                    "{}: {} pushes completed, {} of them claimed their index between a drain's count.load and its reset (the only pushes the code drops uncounted); the drains report {} pushed in total (expected {}). drains (tid,len,rate,vals) = {:?} then {:?}",
+                    ctx, n_push, late.len(), su, n_push - late.len(), r.drains, r.flush
+                ),
+            );
+        } else if !late.is_empty() && report_known {
+            out.oracle_fail(
+                "K-C16-straddle: a completed push is neither yielded nor counted by any drain",
+                &format!("{}: {} pushes, the drains account for {}; lost: {:?}", ctx, n_push, su, late.iter().map(|p| format!("{:016x}", p.bits)).collect::<Vec<_>>()),
+            );
+        }
+    }
+    // (2) only fresh values
+    let mut seen: Vec<u64> = vec![];
+    let mut stale: Vec<String> = vec![];
+    for d in &all {
+        for b in &d.vals {
+            let pushed = r.pushes.iter().any(|p| p.bits == *b);
+            if !pushed || seen.contains(b) {
+                stale.push(format!("{:016x} ({}) in the drain of thread {}", b, if pushed { "already yielded by an earlier drain" } else { "never pushed" }, d.tid));
+            }
+            seen.push(*b);
+        }
+    }
+    if !stale.is_empty() {
+        let detail = format!("{}: {}. drains = {:?} then {:?}", ctx, stale.join("; "), r.drains, r.flush);
+        if inflight_at_load {
+            if report_known {
+                out.oracle_fail("K-C16-straddle: a drain overlapping a push that has claimed its slot but not stored yet yields the slot's old content", &detail);
+            }
+        } else {
+            out.oracle_fail("drain yields a value not pushed since the previous drain (no push was between claim and store at any drain)", &detail);
+        }
+    }
+    // (3) nothing overlaps, nothing sampled out: every pushed value comes out exactly once
+    if !overlap && !sampled && stale.is_empty() && sum_u.is_some() {
+        let mut got = seen.clone();
+        let mut exp: Vec<u64> = r.pushes.iter().map(|p| p.bits).collect();
+        got.sort();
+        exp.sort();
+        if got != exp {
+            out.oracle_fail(
+                "a push that overlaps no drain is lost",
+                &format!("{}: yielded {:x?}, pushed {:x?}; drains = {:?} then {:?}", ctx, got, exp, r.drains, r.flush),
+            );
+        }
+    }
+}
+
+fn conc_case(out: &mut Out, tag: &str, cap: usize, progs: &[Vec<TOp>], schedule: &[usize], report_known: bool) -> ConcRun {
+    out.case(tag);
+    let r = run_conc(cap, progs, schedule);
+    out.op(&format!("reservoir crun {} {} {}", cap, progs_tok(progs), crate::sched::sched_tok(&r.taken)), &conc_answer(&r));
+    out.count("conc: runs");
+    if r.pushes.len() > cap && cap > 0 {
+        out.nontrivial();
+    }
+    conc_oracles(out, cap, progs, &r, report_known);
+    r
+}
+
+fn pv(t: usize, k: usize) -> u64 {
+    (((t + 1) * 100 + k) as f64).to_bits()
+}
+
+fn conc_corpus(out: &mut Out) {
+    let p = |t: usize, k: usize, raw: usize| TOp::Push(pv(t, k), raw);
+    let c = TOp::Consume;
+    // K-C16-straddle witness 1: push selected the primary side, claims after the drain's count.load
+    conc_case(out, "conc corpus straddle-1 (late claim)", 4, &[vec![p(0, 0, 0), p(0, 1, 0)], vec![p(1, 0, 0)], vec![c, c, c]],
+        &[0, 0, 0, 0, 0, 0, 1, 2, 1, 1, 2, 2, 2], true);
+    // K-C16-straddle witness 2: push claimed slot 0, drain reads it before the store
+    conc_case(out, "conc corpus straddle-2 (claimed, not stored)", 4, &[vec![p(0, 0, 0)], vec![c]], &[0, 0, 1, 1, 1, 0], true);
+    // stale content of an earlier cycle read through an in-flight claim
+    conc_case(out, "conc corpus straddle-2b (stale value of an earlier cycle)", 2, &[vec![p(0, 0, 0), p(0, 1, 0)], vec![c, c, c]],
+        &[0, 0, 0, 1, 1, 1, 1, 0, 0, 1, 1, 1, 0], true);
+    // late claim, then two more cycles on both sides: the wiped push must not leave a residue
+    for cap in [1usize, 2, 4] {
+        conc_case(out, &format!("conc corpus late claim + further cycles cap={}", cap), cap,
+            &[vec![p(0, 0, 0), p(0, 1, 1)], vec![p(1, 0, 0)], vec![c, c, c], vec![p(3, 0, 0), p(3, 1, 0), p(3, 2, 2)]],
+            &[0, 0, 0, 0, 0, 0, 1, 2, 1, 1, 2, 2, 2, 3, 3, 3, 2, 2, 3, 3, 3, 2, 2, 2, 2, 3, 3, 3], false);
+    }
+    // a push parked after its claim at / over capacity (also capacity 0), resumed after the drain has completed
+    for cap in [0usize, 1, 2] {
+        let mut t0 = vec![];
+        for k in 0..cap + 1 {
+            t0.push(p(0, k, k));
+        }
+        let mut sched = vec![0; 3 * (cap + 1)];
+        sched.extend([1, 1]); // select, claim (over capacity), parked before the replacement step
+        sched.extend(vec![2; cap + 3]); // a complete consume
+        sched.extend([1, 2, 2, 2]);
+        conc_case(out, &format!("conc corpus over-capacity push resumed after a complete drain cap={}", cap), cap,
+            &[t0, vec![p(1, 0, 0), p(1, 1, 1)], vec![c, c]], &sched, false);
+    }
+    // two consumers and two pushers
+    conc_case(out, "conc corpus two consumers", 2, &[vec![p(0, 0, 0), p(0, 1, 1), p(0, 2, 2)], vec![p(1, 0, 3), p(1, 1, 0)], vec![c, c], vec![c]],
+        &[0, 1, 0, 2, 3, 1, 0, 2, 2, 3, 0, 1, 1, 2, 3, 0, 0, 0, 2, 2, 1, 1, 3, 3], false);
+    // a leaked Drain (mem::forget): the count is not reset
+    conc_case(out, "conc corpus leaked drain", 2, &[vec![p(0, 0, 0), TOp::ConsumeForget, p(0, 1, 0), c, c]], &[], false);
+}
+
+fn conc_random(r: &mut Rng, out: &mut Out, i: usize) {
+    let cap = *r.pick(&[0usize, 1, 1, 2, 2, 3, 4]);
+    let npush = r.range(1, 3);
+    let ncons = r.range(1, 2);
+    let mut progs: Vec<Vec<TOp>> = vec![];
+    for t in 0..npush {
+        let k = r.range(1, 4);
+        progs.push((0..k).map(|j| TOp::Push(pv(t, j), pick_raw(r, cap + j))).collect());
+    }
+    for _ in 0..ncons {
+        let k = r.range(1, 3);
+        progs.push(vec![TOp::Consume; k]);
+    }
+    if r.chance(1, 4) {
+        // a thread that mixes both
+        let t = progs.len();
+        progs.push(vec![TOp::Push(pv(t, 0), r.below(4)), TOp::Consume, TOp::Push(pv(t, 1), r.below(4))]);
+    }
+    let n = progs.len();
+    let mut sched = vec![];
+    let steps: usize = progs.iter().map(|p| p.len() * 4).sum();
+    while sched.len() < steps {
+        let t = r.below(n);
+        let burst = match r.below(4) {
+            0 => 1,
+            1 => 2,
+            2 => 3,
+            _ => r.range(1, 7),
+        };
+        for _ in 0..burst {
+            sched.push(t);
+        }
+    }
+    out.count(&format!("conc: cap={}", cap));
+    out.count(&format!("conc: threads={}", n));
+    conc_case(out, &format!("conc random i={}", i), cap, &progs, &sched, false);
+}
+
+/// every schedule of a small configuration on the real code, each replayed on the model
+fn conc_exhaustive(out: &mut Out, cap: usize, progs: &[Vec<TOp>], limit: usize) {
+    let mut prefix: Vec<usize> = vec![];
+    let mut runs = 0usize;
+    loop {
+        let r = conc_case(out, &format!("conc exhaustive cap={} {} #{}", cap, progs_tok(progs), runs), cap, progs, &prefix, false);
+        runs += 1;
+        out.count("conc: schedules enumerated exhaustively");
+        if runs >= limit {
+            out.count("conc: exhaustive enumerations cut at the limit");
+            return;
+        }
+        let mut i = r.taken.len();
+        let mut next = None;
+        while i > 0 {
+            i -= 1;
+            if let Some(alt) = r.choices[i].iter().copied().filter(|c| *c > r.taken[i]).min() {
+                next = Some((i, alt));
+                break;
+            }
+        }
+        match next {
+            None => {
+                out.count("conc: exhaustive enumerations completed");
+                return;
+            }
+            Some((i, alt)) => {
+                prefix = r.taken[..i].to_vec();
+                prefix.push(alt);
+            }
+        }
+    }
+}
+
+// ---------------------------------------------------------------------------------------------
+// stream F: probes without the scheduler
+
+/// the `swap` mutex excludes a second consumer for as long as the first closure runs.  One-sided: on correct code
+/// thread B can NEVER enter its closure while A is inside, however long we wait, so the wait only bounds how
+/// reliably a missing exclusion is seen, never produces a false alarm.
+fn exclusion_probe(out: &mut Out) {
+    out.case("probe: two concurrent consume() callers");
+    out.count("probes");
+    let res = Arc::new(AtomicSamplingReservoir::new(4));
+    res.push(1.0);
+    let a_in = Arc::new(AtomicBool::new(false));
+    let a_go = Arc::new(AtomicBool::new(false));
+    let b_in = Arc::new(AtomicBool::new(false));
+    let b_in_while_a = Arc::new(AtomicBool::new(false));
+    let ha = {
+        let (res, a_in, a_go) = (res.clone(), a_in.clone(), a_go.clone());
+        std::thread::spawn(move || {
+            res.consume(|drain| {
+                a_in.store(true, SeqCst);
+                wait_for(&a_go);
+                a_in.store(false, SeqCst);
+                drop(drain);
+            })
+        })
+    };
+    wait_for(&a_in);
+    let hb = {
+        let (res, a_in, b_in, bw) = (res.clone(), a_in.clone(), b_in.clone(), b_in_while_a.clone());
+        std::thread::spawn(move || {
+            res.consume(|_drain| {
+                if a_in.load(SeqCst) {
+                    bw.store(true, SeqCst);
+                }
+                b_in.store(true, SeqCst);
+            })
+        })
+    };
+    let t0 = std::time::Instant::now();
+    while t0.elapsed().as_millis() < 150 && !b_in.load(SeqCst) {
+        std::thread::yield_now();
+    }
+    let early = b_in.load(SeqCst);
+    a_go.store(true, SeqCst);
+    ha.join().unwrap();
+    hb.join().unwrap();
+    if early || b_in_while_a.load(SeqCst) {
+        out.oracle_fail(
+            "two consume() closures ran at the same time (the swap lock does not exclude a second consumer)",
+            "cap=4; thread A inside its consume closure (parked); thread B calls consume(): its closure ran before A's returned",
+        );
+    }
+    if !b_in.load(SeqCst) {
+        out.oracle_fail("a second consume() never ran after the first returned", "cap=4");
+    }
+}
+
+/// a closure that panics: the Drain is dropped during unwinding (count reset); pushes must keep working
+fn closure_panic_probe(out: &mut Out) {
+    out.case("probe: consume closure panics");
+    out.count("probes");
+    let res = AtomicSamplingReservoir::new(2);
+    res.push(1.0);
+    QUIET_PANIC.with(|q| q.set(true));
+    let r1 = catch_unwind(AssertUnwindSafe(|| res.consume(|_d| panic!("closure"))));
+    let r2 = catch_unwind(AssertUnwindSafe(|| {
+        for i in 0..5 {
+            res.push(10.0 + i as f64);
+        }
+        res.is_empty()
+    }));
+    let r3 = catch_unwind(AssertUnwindSafe(|| {
+        let mut n = 0;
+        res.consume(|d| n = d.len());
+        n
+    }));
+    QUIET_PANIC.with(|q| q.set(false));
+    assert!(r1.is_err());
+    match r2 {
+        Err(_) => out.oracle_fail("push panicked", "cap=2: push/is_empty after a consume() whose closure panicked"),
+        Ok(true) => out.oracle_fail("is_empty() is true after a push", "cap=2: after a consume() whose closure panicked"),
+        Ok(false) => {}
+    }
+    out.count(if r3.is_err() { "observation: consume() after a panicking closure panics (swap mutex poisoned)" } else { "observation: consume() after a panicking closure works" });
+}
+
+/// several free-running pushers against a consumer, real generator.  Only what holds under ANY interleaving of the
+/// real code is asserted: no panic, len ≤ cap, rate consistent, values are pushed values or 0.0, and the drains never
+/// report more pushes than were made.
+fn stress_probe(out: &mut Out, cap: usize, pushers: usize, per: usize) {
+    out.case(&format!("probe: stress cap={} pushers={} pushes each={}", cap, pushers, per));
+    out.count("probes");
+    let res = Arc::new(AtomicSamplingReservoir::new(cap));
+    let done = Arc::new(AtomicUsize::new(0));
+    let mut hs = vec![];
+    for t in 0..pushers {
+        let (res, done) = (res.clone(), done.clone());
+        hs.push(std::thread::spawn(move || {
+            QUIET_PANIC.with(|q| q.set(true));
+            let r = catch_unwind(AssertUnwindSafe(|| {
+                for k in 0..per {
+                    res.push((t * per + k + 1) as f64);
+                }
+            }));
+            done.fetch_add(1, SeqCst);
+            r.is_ok()
+        }));
+    }
+    let total = pushers * per;
+    let mut bad: Option<String> = None;
+    let mut sum_u = 0usize;
+    let mut drains = 0usize;
+    let mut one = |bad: &mut Option<String>, sum_u: &mut usize| {
+        let mut d = DrainSeen { tid: 0, len: 0, rate: 0.0, vals: vec![] };
+        res.consume(|drain| {
+            d.len = drain.len();
+            d.rate = drain.sample_rate();
+            d.vals = drain.map(|v| v.to_bits()).collect();
+        });
+        match unsampled_of(cap, &d) {
+            Err(why) => *bad = Some(format!("{} ({:?})", why, d)),
+            Ok(Some(u)) => *sum_u += u,
+            Ok(None) => {}
+        }
+        for b in &d.vals {
+            let v = f64::from_bits(*b);
+            if !(v == 0.0 || (v >= 1.0 && v <= total as f64 && v.fract() == 0.0)) {
+                *bad = Some(format!("yielded {:?}, which no thread pushed", v));
+            }
+        }
+    };
+    while done.load(SeqCst) < pushers {
+        one(&mut bad, &mut sum_u);
+        drains += 1;
+    }
+    let ok = hs.into_iter().map(|h| h.join().unwrap_or(false)).all(|x| x);
+    one(&mut bad, &mut sum_u);
+    one(&mut bad, &mut sum_u);
+    out.count_n("stress: drains overlapping free-running pushers", drains as u64);
+    if !ok {
+        out.oracle_fail("push panicked", &format!("cap={} {} free-running pushers against a consumer (real generator)", cap, pushers));
+    } else if let Some(why) = bad {
+        out.oracle_fail("drain length / sample rate inconsistent", &format!("cap={} stress: {}", cap, why));
+    } else if cap > 0 && sum_u > total {
+        out.oracle_fail(
+            "the drains' pushed-counts do not add up to the pushes made",
+            &format!("cap={} stress: {} pushes were made, the drains report {} (more than were ever pushed)", cap, total, sum_u),
+        );
+    } else {
+        out.nontrivial();
+    }
+}
+
+/// the per-thread generators must not be copies of each other (nor restart identically)
+fn generator_independence_probe(out: &mut Out) {
+    out.case("probe: generators of different threads / successive cycles are not identical");
+    out.count("probes");
+    let trial = || -> Vec<Vec<u64>> {
+        let res = AtomicSamplingReservoir::new(4);
+        let mut kept = vec![];
+        for _ in 0..24 {
+            for pos in 0..64 {
+                res.push(pos as f64 + 1.0);
+            }
+            res.consume(|d| kept.push(d.map(|v| v.to_bits()).collect::<Vec<u64>>()));
+        }
+        kept
+    };
+    let a = std::thread::spawn(trial).join().unwrap();
+    let b = std::thread::spawn(trial).join().unwrap();
+    let c = trial();
+    // 24 cycles of cap 4 out of 64: two independent generators agree on ALL of them with probability < 1e-100
+    if a == b || a == c || b == c {
+        out.oracle_fail(
+            "retention frequency differs from capacity/n (real generator)",
+            "cap=4 n=64, 24 cycles on three threads: two threads retained exactly the same positions in every cycle (generators are copies of each other)",
+        );
+    }
+    if c.windows(2).all(|w| w[0] == w[1]) {
+        out.oracle_fail(
+            "retention frequency differs from capacity/n (real generator)",
+            "cap=4 n=64: 24 successive cycles retained exactly the same positions (generator restarts identically)",
+        );
+    }
+}
+
+/// real generator at stream lengths far beyond the capacity: retention per quarter of the stream
+fn long_stream_probe(out: &mut Out, cap: usize, n: usize, trials: usize) {
+    out.case(&format!("stat long stream cap={} n={} trials={}", cap, n, trials));
+    out.count("statistical searches (real generator)");
+    let res = AtomicSamplingReservoir::new(cap);
+    let mut q = [0u64; 4];
+    let mut foreign = 0u64;
+    QUIET_PANIC.with(|q| q.set(true));
+    let r = catch_unwind(AssertUnwindSafe(|| {
+        for _ in 0..trials {
+            for pos in 0..n {
+                res.push(pos as f64);
+            }
+            res.consume(|drain| {
+                let rate = drain.sample_rate();
+                if drain.len() != cap || rate.to_bits() != (cap as f64 / n as f64).to_bits() {
+                    foreign += 1;
+                }
+                for v in drain {
+                    if v >= 0.0 && (v as usize) < n {
+                        q[(v as usize) * 4 / n] += 1;
+                    } else {
+                        foreign += 1;
+                    }
+                }
+            });
+        }
+    }));
+    QUIET_PANIC.with(|q| q.set(false));
+    if r.is_err() {
+        out.oracle_fail("push panicked", &format!("cap={} n={} with the real generator", cap, n));
+        return;
+    }
+    if foreign > 0 {
+        out.oracle_fail("repeated push/drain cycles are not independent", &format!("cap={} n={} trials={}: {} wrong lengths/rates/values", cap, n, trials, foreign));
+        return;
+    }
+    out.nontrivial();
+    // per trial the number retained from one quarter lies in [0, cap]; Hoeffding with range cap, delta 1e-11
+    let t = cap as f64 * ((trials as f64) * (2.0e11f64).ln() / 2.0).sqrt();
+    let expect = trials as f64 * cap as f64 / 4.0;
+    if q.iter().any(|c| (*c as f64 - expect).abs() > t) {
+        out.oracle_fail(
+            "retention frequency differs from capacity/n (real generator)",
+            &format!("cap={} n={} trials={}: retained per quarter of the stream {:?}; expected {:.0} ± {:.0} each (Hoeffding, false alarm < 1e-11)", cap, n, trials, q, expect, t),
+        );
+    }
+}
+
+// ---------------------------------------------------------------------------------------------
+// stream G: the DogStatsD sampled histogram (AtomicHistogram::Sampled → State::flush → payload)
+
+fn dogstatsd_case(out: &mut Out, size: usize, n: usize, as_dist: bool, cycles: usize) {
+    use metrics::Recorder;
+    static META: metrics::Metadata<'static> = metrics::Metadata::new("mv", metrics::Level::INFO, None);
+    out.case(&format!("dogstatsd sampled histogram size={} n={} dist={} cycles={}", size, n, as_dist, cycles));
+    out.count("dogstatsd sampled-histogram flushes");
+    let mut driver = metrics_exporter_dogstatsd::verif::StateDriver::new(false, true, size, as_dist, vec![], None);
+    let rec = driver.recorder();
+    let key = metrics::Key::from_name("h");
+    let h = rec.register_histogram(&key, &META);
+    let mut writer = metrics_exporter_dogstatsd::verif::Writer::new(8192, false);
+    for cycle in 0..cycles {
+        let base = (cycle * 100_000) as f64;
+        for i in 0..n {
+            h.record(base + i as f64 + 1.0);
+        }
+        let counts = driver.flush(&mut writer);
+        let payloads = writer.drain();
+        let ctx = format!("reservoir size {} (histogram_sampling=true), cycle {}: {} values recorded", size, cycle, n);
+        let msgs = match crate::c10::parse_payloads(&payloads) {
+            Ok(m) => m,
+            Err(e) => {
+                out.oracle_fail("dogstatsd sampled histogram: unparsable payload", &format!("{}: {}", ctx, e));
+                return;
+            }
+        };
+        let mut vals: Vec<f64> = vec![];
+        let mut rates: Vec<Option<String>> = vec![];
+        for m in &msgs {
+            if m.name != "h" || m.ty != (if as_dist { "d" } else { "h" }) {
+                out.oracle_fail("dogstatsd sampled histogram: unexpected message", &format!("{}: {:?}", ctx, m));
+                return;
+            }
+            rates.push(m.rate.clone());
+            vals.extend(m.values.iter().filter_map(|v| v.parse::<f64>().ok()));
+        }
+        let expect_len = n.min(size);
+        if n == 0 {
+            if !msgs.is_empty() {
+                out.oracle_fail("dogstatsd sampled histogram: an empty histogram was flushed", &format!("{}: {:?}", ctx, msgs));
+            }
+            continue;
+        }
+        if vals.len() != expect_len {
+            out.oracle_fail("drain length is not min(pushed, capacity)", &format!("{}: {} values in the payloads {:?}", ctx, vals.len(), msgs));
+            continue;
+        }
+        if vals.iter().any(|v| !(*v > base && *v <= base + n as f64)) || (n <= size && vals != (0..n).map(|i| base + i as f64 + 1.0).collect::<Vec<_>>()) {
+            out.oracle_fail("drain yields a value not pushed since the previous drain", &format!("{}: payload values {:?}", ctx, vals));
+        }
+        // the rate on the wire: absent or 1 when nothing was sampled out, else size/n
+        let expect_rate = expect_len as f64 / n as f64;
+        for r in &rates {
+            let got = match r {
+                None => 1.0,
+                Some(s) => s.parse::<f64>().unwrap_or(f64::NAN),
+            };
+            if got.to_bits() != expect_rate.to_bits() {
+                out.oracle_fail("sample rate is not yielded / pushed", &format!("{}: message carries @{:?}, expected {:?}", ctx, r, expect_rate));
+                break;
+            }
+        }
+        // telemetry: points = yielded / rate = recorded
+        let pts = (expect_len as f64 / expect_rate) as u64;
+        if counts.histogram_points != pts || counts.histogram_contexts != 1 {
+            out.oracle_fail("dogstatsd sampled histogram: flush counters are not yielded / rate", &format!("{}: {:?}, expected histogram_points {}", ctx, counts, pts));
+        }
+        if n > size && size > 0 {
+            out.nontrivial();
+        }
+    }
 }
 
 pub fn run(cfg: &Cfg, out: &mut Out) {
@@ -646,8 +1501,43 @@ pub fn run(cfg: &Cfg, out: &mut Out) {
         stat_case(out, cap, n, trials);
     }
 
-    // ---- stream D: known finding
-    straddle(out);
+    // ---- stream D: parked push, complete drains
+    *verif::POINT_HOOK.write().unwrap() = Some(point_hook);
+    parked_grid(out);
+
+    // ---- stream E: concurrency under the scheduler, replayed on the Lean step machine
+    conc_corpus(out);
+    {
+        let p = |t: usize, k: usize, raw: usize| TOp::Push(pv(t, k), raw);
+        conc_exhaustive(out, 1, &[vec![p(0, 0, 0), p(0, 1, 0)], vec![TOp::Consume, TOp::Consume]], 2000);
+        if cfg.thorough {
+            conc_exhaustive(out, 0, &[vec![p(0, 0, 0), p(0, 1, 1)], vec![TOp::Consume, TOp::Consume]], 5000);
+            conc_exhaustive(out, 2, &[vec![p(0, 0, 0), p(0, 1, 0), p(0, 2, 1)], vec![TOp::Consume, TOp::Consume]], 20000);
+            conc_exhaustive(out, 1, &[vec![p(0, 0, 0), p(0, 1, 0)], vec![p(1, 0, 1)], vec![TOp::Consume, TOp::Consume]], 20000);
+            conc_exhaustive(out, 1, &[vec![p(0, 0, 0), p(0, 1, 1)], vec![TOp::Consume], vec![TOp::Consume]], 20000);
+        }
+    }
+    let nconc = if cfg.thorough { cfg.cases / 2 } else { cfg.cases };
+    for i in 0..nconc {
+        let mut r = root.fork(0xC0_0000 + i as u64);
+        conc_random(&mut r, out, i);
+    }
+    *verif::POINT_HOOK.write().unwrap() = None;
+
+    // ---- stream F: probes
+    exclusion_probe(out);
+    closure_panic_probe(out);
+    for (cap, pushers) in [(0usize, 2usize), (1, 3), (16, 3), (DEFAULT_CAP, 2)] {
+        stress_probe(out, cap, pushers, if cfg.thorough { 200_000 } else { 20_000 });
+    }
+    generator_independence_probe(out);
+    long_stream_probe(out, 16, 4096, if cfg.thorough { 2000 } else { 150 });
+    long_stream_probe(out, 8, 300, if cfg.thorough { 20_000 } else { 2000 });
+
+    // ---- stream G: DogStatsD sampled histogram
+    for (size, n) in [(DEFAULT_CAP, 10usize), (DEFAULT_CAP, DEFAULT_CAP), (DEFAULT_CAP, 3000), (4, 0), (4, 3), (4, 4), (4, 5), (4, 64), (1, 7), (16, 100)] {
+        dogstatsd_case(out, size, n, n % 2 == 0, 3);
+    }
 
     // ---- stream A: scripted sessions
     for i in 0..cfg.cases {
